@@ -209,6 +209,15 @@ class World:
     def func(self, qualname):
         return self.functions[qualname]
 
+    def make_harness(self, name, src, module=PKG + ".gateway"):
+        """A sidecar driver function (not repository code): it only *calls* the code under contract."""
+        tree = ast.parse(src)
+        node = tree.body[0]
+        q = f"harness.{name}"
+        f = FuncVal(node, q, module, None, [], [MISSING] * len(node.args.kwonlyargs), None)
+        self.functions[q] = f
+        return f
+
 
 def load_world(repo=None):
     w = World(repo)
